@@ -9,6 +9,16 @@ CLAIMED = {
    technique="deterministic simulation: real fit() on Dask arrays under a seeded simulated scheduler (task order, placement, copy-vs-share, chunking as injected faults), differential oracle vs in-memory fit",
    text="Seeded exploration: every run executes the repository's real Dask training path under SimScheduler (seeded task order / stalls / worker placement / serialisation isolation / row and feature chunking) and compares model, criterion and thresholded stop with the in-memory fit of the same tree, plus agreement between the three executor models; all row compositions for n<=5 (thorough n<=7) are enumerated. Sampling, not proof; appropriate because the property quantifies over schedules and chunkings that no finite test fixes.",
    note="Trusted: SimScheduler as a model of Dask's synchronous/threaded, multiprocessing and distributed executors; cloudpickle as wire format; in-memory path as reference; tolerance 1e-8 (1e-12 between executor models); near-tie / near-threshold / degenerate-variance cases are skipped and counted."),
+ "C12": dict(
+   design="5.3",
+   technique="deterministic simulation: real ISV/JFA/i-vector fit() on Dask bags under a seeded simulated scheduler (partition layout, task order, placement, serialisation isolation as injected faults), differential oracle vs list fit",
+   text="Seeded exploration: every run trains ISV, JFA or the i-vector extractor from a dask.bag with an explicit partition layout (empty, singleton, class-mixing partitions, unsorted labels, every partition count) under SimScheduler and compares U/V/D or T/sigma with the in-memory list fit of the same tree and across the three executor models; every partition count 1..N for N<=5 (thorough N<=7) is enumerated. Sampling, not proof.",
+   note="Trusted: SimScheduler as a model of Dask executors; cloudpickle as wire format; list fit as reference; generated statistics have count >= 0.1 per component so a dropped/duplicated partition is far above the 1e-8 tolerance."),
+ "C02": dict(
+   design="5.1",
+   technique="deterministic simulation of a map-reduce over the real E-step: seeded block assignment, per-block NumPy/Dask backend, shared-or-copied transfer, seeded merge schedule (+, reversed +, +=, reduce(iadd)); invariants after every merge step, independent longdouble reference model",
+   text="Seeded exploration with per-step invariants (count conservation, responsibilities non-negative and summing to the count, operands of + untouched, += returns its left operand) and end-of-run oracles (split-and-add == whole-set accumulation == independent longdouble reference model; incompatible shapes refused without side effects). All 2^(n-1) compositions for n<=6 (thorough n<=8) are enumerated with three merge schedules.",
+   note="Trusted: dst/refmodel.py (independent numpy.longdouble posterior moments from the visible parameters); tolerance 1e-9 relative to (t, t*scale, t*scale^2, |ll|)."),
 }
 
 NA = {
